@@ -73,6 +73,42 @@ def check(ctx):
         ctx.guarded("pnet-write", "keystream applied only to accepted bytes", s, lambda c, r, l: l == "Ok" and "AsyncWrite>::poll_write(" in r and r.endswith("@Ready.0)"), "buffer write == Ready(Ok(count))")
         r = render(w.site_expr(s))
         ctx.ob("pnet-write", "keystream over exactly buf[0..count]", re.search(r"apply_keystream\(this\.cipher, <std::vec::Vec as std::ops::IndexMut>::index_mut\(this\.buf, std::ops::Range::Range\{start: 0, end: .*@Ready\.0@Ok\.0\}\)\)$", r) is not None, s.loc(), r[:260])
+    # poll_flush_buf: bytes the inner writer accepted are removed from the buffer before *any* exit (otherwise the next
+    # flush sends the same ciphertext again and the peer's keystream position no longer matches)
+    fb = ctx.body(N, r"crypt_writer::poll_flush_buf$")
+    acc = []          # sites where progress is recorded: <counter> = <counter> + <poll_write(..)@Ready@Ok>
+    for l, ds in fb.defs.items():
+        if not isinstance(l, int):
+            continue
+        for d in ds:
+            if d[0] == "stmt":
+                r = render(fb.rvalue_expr(d[3]))
+                if r.startswith("AddWithOverflow(") and r.endswith(".0") and "AsyncWrite::poll_write(" in r and "@Ready.0@Ok.0" in r:
+                    acc.append((l, mir.Site(fb, d[1], d[2])))
+    drains = [s for s in fb.call_sites(r"Vec::drain$|Vec::drain::<|Vec::split_off$|Vec::clear$|Vec::truncate$")]
+    ctx.floor("pnet-flush", "progress accumulation", acc, 1)
+    ctx.floor("pnet-flush", "buffer drain", drains, 1)
+    for l, s in acc:
+        nm = fb.names.get(l) or "_%d" % l
+        # leaving without the drain is only fine on the `counter == 0` side of a test of that same counter
+        zero = set()
+        for bi in fb.live:
+            info = fb.switch_info(bi)
+            if not info:
+                continue
+            c = info[0]
+            if c[0] == "bin" and c[2][0] == "local" and c[2][1] == l and c[3][0] == "const" and c[3][1] == 0:
+                for tgt, ls in info[1].items():
+                    if (c[1], tuple(sorted(ls))) in (("Gt", ("false",)), ("Ne", ("false",)), ("Eq", ("true",))):
+                        zero.add((bi, tgt))
+        r = fb.reachable_bool([s.bb], blocked_nodes=lib.bbs(drains), blocked_edges=zero)
+        bad = sorted(set(fb.return_blocks()) & r)
+        ctx.ob("pnet-flush", "accepted bytes are drained from the buffer before every exit", not bad, s.loc(),
+               "every path from `%s += n` to a return passes buf.drain(..%s)" % (nm, nm) if not bad else
+               "a return is reachable after progress without draining the buffer (return blocks %s)" % bad)
+    for s in drains:
+        e = render(fb.site_expr(s))
+        ctx.ob("pnet-flush", "drain removes exactly the written prefix", any(("end: %s" % (fb.names.get(l) or "")) in e for l, _ in acc) and "RangeTo" in e, s.loc(), e[:160])
     okw = lib.switch_edges_on(w, r"^discr\(<std::vec::Vec as futures::AsyncWrite>::poll_write\(.*@Ready\.0\)$", {"Ok"})
     for _, t in okw:
         got = lib.count_range(w, [t], w.return_blocks(), lib.bbs(ak))
